@@ -44,9 +44,9 @@ def main():
             'add_only': True,
         },
         'engines': [
-            {'name': 'vx-verus', 'path': 'vx/verus_backend.py', 'serves_properties': ['C02', 'C03', 'C08', 'C12', 'C13', 'C14', 'C16', 'C17', 'C19', 'C20', 'C31'],
+            {'name': 'vx-verus', 'path': 'vx/verus_backend.py', 'serves_properties': ['C01', 'C02', 'C03', 'C08', 'C12', 'C13', 'C14', 'C16', 'C17', 'C19', 'C20', 'C31'],
              'kind_free_text': 'Verus 0.2026.09.13 (Z3) on real function text extracted from /repo each run, contract clauses inserted from units/*/unit.vx'},
-            {'name': 'vx-native-bounded', 'path': 'vx/native_backend.py', 'serves_properties': ['C02', 'C03', 'C08', 'C12', 'C13', 'C14', 'C16', 'C17', 'C19', 'C20', 'C31'],
+            {'name': 'vx-native-bounded', 'path': 'vx/native_backend.py', 'serves_properties': ['C01', 'C02', 'C03', 'C08', 'C12', 'C13', 'C14', 'C16', 'C17', 'C19', 'C20', 'C31'],
              'kind_free_text': 'bounded stand-in only: exhaustive native enumeration of a stated small input space against the real crates (path dependency on /repo) for callee contracts the verifiers cannot reach; never counted as proved'},
             {'name': 'vx-kani', 'path': 'vx/kani_backend.py', 'serves_properties': ['C17', 'C32'],
              'kind_free_text': 'Kani 0.68 / CBMC 6.11 function contracts and full-domain harnesses on verbatim copies of the real source files'},
